@@ -3,7 +3,7 @@
    coq_gen/C02/TableProps.v (compiled on every run after the translator, in build/C02).
    F and the f* operators are an arbitrary interpretation of float / complex arithmetic and of the bit layout of floats. *)
 From Coq Require Import ZArith List Bool.
-From Verif Require Import Common.GoInt Common.GoStr GoLite.Syntax GoLite.Sem C01.Model C02.Model C02.ProofA C02.ProofB.
+From Verif Require Import Common.GoInt Common.GoStr GoLite.Syntax GoLite.Sem C01.Model C02.Model C02.ProofA C02.ProofB C02.ProofC.
 Import ListNotations.
 Open Scope Z_scope.
 
@@ -35,6 +35,26 @@ Proof.
   apply var_op_sound; [|exact Hh]. destruct left, r; exact I.
 Qed.
 Print Assumptions C02_var_shift_sound.
+
+(* x /= +-2^sh compiled as a shift (varQuoPow2, class IntBind): n := *addr; if n < 0 { n += 2^sh - 1 }; *addr = [-](n >> sh)
+   (unsigned: *addr >>= sh) stores the truncated quotient x / +-2^sh, including the divisor MinInt (sh = width-1) *)
+Theorem C02_var_pow2_sound :
+  forall F fbin fcmp fun1 fconv fpart fofbits ftobits k h negy (i : inputs F) p s fuel,
+    tmpl_valid (TVarQuoPow2 k h negy) = true -> inputs_ok F (TVarQuoPow2 k h negy) i -> hops_ok h (in_upn F i) fuel ->
+    run_stmt F fbin fcmp fun1 fconv fpart fofbits ftobits fuel (roots_of F (TVarQuoPow2 k h negy) i) (closure_of_tmpl (TVarQuoPow2 k h negy)) p s
+    = spec_tmpl F fbin fcmp fconv fofbits ftobits (TVarQuoPow2 k h negy) i p s.
+Proof. exact var_quopow2_sound. Qed.
+Print Assumptions C02_var_pow2_sound.
+
+(* soundness of the boolean checker that is run on every regenerated table row *)
+Theorem C02_entry_ok_sound :
+  forall F fbin fcmp fun1 fconv fpart fofbits ftobits e, entry_ok e = true ->
+    exists t, classify e = Some t /\ tmpl_valid t = true /\
+      forall (i : inputs F) p s fuel, inputs_ok F t i -> hops_ok (tmpl_hops t) (in_upn F i) fuel ->
+        run_stmt F fbin fcmp fun1 fconv fpart fofbits ftobits fuel (roots_of F t i) (closure_of e) p s
+        = spec_tmpl F fbin fcmp fconv fofbits ftobits t i p s.
+Proof. exact entry_ok_sound. Qed.
+Print Assumptions C02_entry_ok_sound.
 
 (* x = e *)
 Theorem C02_set_sound :
